@@ -33,7 +33,8 @@ CONTENTS = [
     ("unterminated-comment", ["x = 1; /* never closed"]),
     ("unterminated-string", ['s = "never closed;']),
     ("preproc", ["#define   ZZ(a)   (a)", "#if 0", "#endif"]),
-    ("lookalikes", ["/* *INDENT-ON */", "// INDENT-ON*", "/* * INDENT-ON * */", "#pragma endasmx"]),
+    ("lookalikes", ["/* *INDENT-ON */", "// INDENT-ON*", "/* * INDENT-ON * */", "#pragma endas"]),
+    ("foreign-end-marker", ["x = 1;", "#pragma endasmx", "y = 2;"]),
     ("long-line", ["x = " + "+".join(["a"] * 80) + ";"]),
     ("case-label", ["case 3:", "default:", "public:"]),
 ]
@@ -135,7 +136,8 @@ def cause_of(devs, bname):
 def job(j):
     name, lang, lines, i, marker, term, terminated, bname, settings, contents, sweep = j
     res = {"id": "%s@%d/%s" % (name, i, marker), "runs": 0, "nontrivial": 0, "cases": 0, "viol": [], "pruned": 0}
-    base = dict(settings); base.update(MARKERS[marker][2])
+    base = {k: v for k, v in settings.items() if k not in ("utf8_force", "utf8_byte", "utf8_bom")}
+    base.update(MARKERS[marker][2])
     R = bee.reg()
 
     def one(devs, want_reads=False):
@@ -154,6 +156,10 @@ def job(j):
             if r.out != src:
                 res["nontrivial"] += 1
             clause, outside = evaluate(lines, i, marker, content, r.out, terminated)
+            if clause == "marker-lost" and 0 < int(dict(base, **dict(devs)).get("code_width", "0")) < 40:
+                res["inconclusive"] = res.get("inconclusive", 0) + 1      # the marker line itself was split by code_width
+                outs[cn] = None
+                continue
             w0 = {"lang": lang, "marker": marker, "content": cn, "base": bname, "devs": ",".join("%s=%s" % d for d in devs), "term": "crlf" if term == "\r\n" else "lf",
                   "terminated": terminated, "cause": cause_of(devs, bname)}
             if clause:
@@ -176,7 +182,8 @@ def job(j):
 
     reads = one((), want_reads=sweep)
     if sweep and reads is not None:
-        pred = lambda n: n not in ("disable_processing_cmt", "enable_processing_cmt", "processing_cmt_as_regex")
+        # (the markers themselves are fixed per job; utf8_force / utf8_byte transcode the whole file, which is C09's subject)
+        pred = lambda n: n not in ("disable_processing_cmt", "enable_processing_cmt", "processing_cmt_as_regex", "utf8_force", "utf8_byte", "utf8_bom")
         s1 = configs.singles(R, base, reads, pred)
         res["pruned"] = len(configs.singles(R, base, None, pred)) - len(s1)
         for d in s1:
@@ -246,7 +253,9 @@ def check(ctx):
                 # the witness proper is (clause, cause); everything else is detail (keeps one replay per kind of violation)
                 import json as _json
                 files = dict(files); files["detail.json"] = _json.dumps(w, indent=1)
-                wk = {"clause": w["clause"], "cause": w.get("cause", ""), "marker": w["marker"], "terminated": w.get("terminated", True)}
+                wk = {"clause": w["clause"], "cause": w.get("cause", ""), "marker": "pragma" if w["marker"] in ("pragma-asm", "asm") else "comment"}
+                if w.get("content") == "foreign-end-marker" or w.get("ref_content") == "foreign-end-marker":
+                    wk["content"] = "foreign-end-marker"
                 ctx.rep.violation(wk, files, ["/verif/build/hooks/uncrustify", "-c", "config.cfg", "-l", files["lang"], "-f", "input"])
         if pool.cut:
             ctx.cut = True
